@@ -128,8 +128,9 @@ class ThreadWorker(Worker):
         if self._set_names:
             setthreadtitle(self.name, self)
 
-        self._startup_sync.set()
         try:
+            # from now on the parent can call terminate(): make sure the exception always lands inside the try block
+            self._startup_sync.set()
             assert self.is_child
             self._init_child()
             self._result = (True, self.do_work())
